@@ -78,11 +78,13 @@ type sample struct {
 }
 
 type meta struct {
-	Rule        string   `json:"rule"`
-	Real        []string `json:"real"`
-	Simulated   []string `json:"simulated"`
-	Assumptions []string `json:"assumptions"`
-	Technique   string   `json:"technique"`
+	Rule        string         `json:"rule"`
+	Real        []string       `json:"real"`
+	Simulated   []string       `json:"simulated"`
+	Assumptions []string       `json:"assumptions"`
+	Technique   string         `json:"technique"`
+	GridTotals  map[string]int `json:"grid_totals"`
+	GridRule    string         `json:"grid_rule"`
 }
 
 type summary struct {
@@ -95,6 +97,7 @@ type summary struct {
 	Digests    []string       `json:"digests"`
 	AllDigests int            `json:"all_digests"`
 	States     []uint64       `json:"states"`
+	Grid       []uint64       `json:"grid"`
 	Nontrivial int            `json:"nontrivial"`
 	Violations []violationRec `json:"violations"`
 	Samples    []sample       `json:"samples"`
@@ -276,6 +279,7 @@ type agg struct {
 	digests   map[string]struct{}
 	allDig    int
 	states    map[uint64]struct{}
+	grid      map[uint64]struct{}
 	nontriv   int
 	viol      []violationRec
 	samples   []sample
@@ -374,6 +378,9 @@ func (a *agg) merge(s *summary, genStart, genStride int, free bool) {
 	for _, st := range s.States {
 		a.states[st] = struct{}{}
 	}
+	for _, g := range s.Grid {
+		a.grid[g] = struct{}{}
+	}
 	a.nontriv += s.Nontrivial
 	a.viol = append(a.viol, s.Violations...)
 	if len(a.samples) < 3 {
@@ -390,7 +397,7 @@ func (a *agg) merge(s *summary, genStart, genStride int, free bool) {
 }
 
 func newAgg() *agg {
-	return &agg{fired: map[string]int{}, probes: map[string]int{}, digests: map[string]struct{}{}, states: map[uint64]struct{}{}}
+	return &agg{fired: map[string]int{}, probes: map[string]int{}, digests: map[string]struct{}{}, states: map[uint64]struct{}{}, grid: map[uint64]struct{}{}}
 }
 
 // runBatch runs worker processes until the wall budget is used.
@@ -1419,6 +1426,18 @@ func writeEvidence(a, fa *agg, nViol, nClasses int) {
 		"components_simulated":                       m.Simulated,
 		"violation_classes":                          nClasses,
 		"technique":                                  m.Technique,
+	}
+	if len(m.GridTotals) > 0 {
+		reached := map[string]int{}
+		for g := range a.grid {
+			reached[strconv.Itoa(int(g>>56))]++
+		}
+		cells := map[string]string{}
+		for k, tot := range m.GridTotals {
+			cells[k] = fmt.Sprintf("%d of %d", reached[k], tot)
+		}
+		cov["bounded_grid_cells_reached"] = cells
+		cov["bounded_grid_rule"] = m.GridRule
 	}
 	if fa.runs > 0 {
 		cov["free_running_fault_kinds_fired"] = fa.fired
